@@ -328,10 +328,17 @@ def run(ck):
         "not generated: with, import/export, optional chain as tag of a template / assignment target, 'new a?.b' (not derivable; js.Parse accepts it), "
         "getters/setters/async as field names, string keys of methods",
     ]
+    import c03scope
+    c03scope.run(ck, thorough)      # the programs of the scope generator (shadowing / redeclaration verdicts) under every Options value
+    import c03tree
+    c03tree.run(ck, thorough)       # code -> spec: the returned tree of arbitrary accepted inputs (yield, ladder, context) judged by spec/js/JsTreeTrace.tla
 
 
 def replay(ck, path):
     obj = json.load(open(path))
+    if obj.get("suite") == "jstree":
+        import c03tree
+        return c03tree.replay(ck, obj)
     ck.cov["samples"] = [{"src": obj.get("text"), "kind": obj.get("kind")}]
     ck.cov["evaluations"] = 4
     if reproduce(ck, obj):
